@@ -648,7 +648,7 @@ FIXED_SINGLES = [
     1.0, "", "1", " 1", [], [1], {"$": "tuple", "v": []}, {"$": "dict", "v": []}, {"$": "set", "v": []}, {"$": "frozenset", "v": [1]},
     {"$": "complex", "v": ["1.0", "2.0"]}, {"$": "ellipsis"}, 10**25, [{"$": "obj", "s": "q"}],
 ]
-FIXED_CONSTS = [1, 1.5, True, None, "ab", "1", [1, 2], ["ab", 1], {"$": "tuple", "v": ["x", "y"]}, {"$": "dict", "v": [["k", "v"]]},
+FIXED_CONSTS = [1, 1.5, True, None, "ab", "1", [1, 2], ["ab", 1], {"$": "tuple", "v": ["x", "y"]}, {"$": "dict", "v": [["a", "b"]]},
                 {"$": "dict", "v": [[1, ["a", None]]]}, [], "a b", [[1], ["a"]]]
 _CHARS = "[](){},:'\" 1a-+.*#\\\n\tej_0bx%"
 VAR_NAMES = ["v0", "v1", "v2", "v3", "v4", "v5"]
